@@ -5,9 +5,11 @@ Proved for the model of check.rs (`Check.validate`, tied to the library exactly 
 every grammar tree and target shell — each `rejects_…` theorem says: a grammar with this mistake,
 and none of the mistakes checked before it, is rejected with this class, whatever else it contains:
   rejects_no_variant, rejects_varying_names, rejects_slash_name, rejects_duplicate_plain,
-  rejects_unknown_shell, rejects_non_command_spec, rejects_duplicate_target_spec,
+  rejects_unknown_shell, rejects_non_command_spec, rejects_duplicate_target_spec, rejects_cycle
+(definitions that refer to each other in a circle: the depth-first traversal that orders the
+definitions cannot succeed, `Proofs/Topo.lean` + `Proofs/Cycle.lean`),
 and `error_is_final`: an error of validation is the verdict of the whole pipeline.  The classes
-decided later in the pipeline (cycle, spaces inside a word, non-tail placeholder, conflicting
+decided later in the pipeline (spaces inside a word, non-tail placeholder, conflicting
 descriptions) and `accepts_clean` are open; they are decided per grammar by the run.
 
 The label table `Gen.diagLabels` is regenerated from lib.rs / main.rs on every run.  Proved here:
@@ -16,6 +18,7 @@ substring-free empty text, so the first line of a diagnostic identifies the clas
 error classes are exactly the variants of the `Error` enum that carry a diagnosis.
 -/
 import Complgen.Proofs.Validate
+import Complgen.Proofs.Cycle
 import Complgen.Gen.Diag
 namespace Complgen.Props.C08
 open Complgen
@@ -97,6 +100,17 @@ theorem rejects_duplicate_target_spec (g : Grammar) (sh : Shell) (n : String) (h
     (hds : ¬ TargetSpecsDistinct g sh) :
     ∃ spans, validate g sh = .err .duplicateNonterminalDefinition spans :=
   validate_dup_spec g sh n (commandOf_ok g n h hs) hd hc hk hds
+
+open Complgen.Check in
+/-- definitions that refer to each other in a circle (through any chain, inside words, under any
+operator) are rejected as a cycle; `Reach` is one or more steps of "the body of this definition, as
+specialised for the target shell, refers to that plain definition" -/
+theorem rejects_cycle (g : Grammar) (sh : Shell) (n : String) (h : OneCommand g n)
+    (hs : '/' ∉ n.toList) (hd : ((plainDefs g).map (·.1)).Nodup) (specs : AList UserSpec) (fbs : AList String)
+    (hgs : getSpecializations g sh = .ok (specs, fbs)) (v : String)
+    (hcyc : Reach (depGraph (tableOf sh g)) v v) :
+    ∃ spans, validate g sh = .err .nonterminalDefinitionsCycle spans :=
+  validate_cycle g sh n (commandOf_ok g n h hs) hd specs fbs hgs v hcyc
 
 /-- an error of validation is the verdict of the whole pipeline, for every work-list schedule -/
 theorem error_is_final (σ : Schedule) (g : Grammar) (sh : Shell) (c : Check.ErrClass) (s : List Span)
